@@ -146,8 +146,17 @@ class Driver:
             st.sum_pxx = st.n[:, None] * (tv + inplace ** 2)
             st.log_likelihood = -1.0
             m.update_weights, m.update_means, m.update_variances = uw, um, uv
+            m.mean_var_update_threshold = float(EPS)
             from bob.learn.em.gmm import m_step
             m_step([st], m)
+        elif name == "SetCountThr":
+            # the count floor of the M-steps, changed after construction (both public ways)
+            val = float(EPS) if op["x"] == "small" else 0.75
+            if self.n % 2:
+                m.set_params(mean_var_update_threshold=val)
+            else:
+                m.mean_var_update_threshold = val
+            self.n += 1
         elif name == "Copy":
             m = copy.deepcopy(m)
         elif name == "Pickle":
